@@ -49,6 +49,8 @@ class Externals:
         self.class_ctors = {}      # class name -> impl(engine, ctx, args, kwargs)
         self.specials = []         # functions (engine, ctx, callnode) -> generator | None
         self.obj_dynamic = {}      # obj class tag -> fn(engine, ctx, base, attr) -> Value | None
+        self.counter_fields = {}   # (obj, field) of a Map[k -> Map] whose inner key 0 holds an itertools.count -> (obj, ghost field) of its next value
+        self.counter_atom = None
 
     def note(self, text):
         self.assumed.add(text)
@@ -425,6 +427,8 @@ class Externals:
             yield c, S(r)
 
     def callable_cond(self, eng, ctx, t):
+        if self.counter_atom is not None:
+            return t != self.counter_atom       # an itertools.count object is not callable
         return z3.BoolVal(True)
 
     # ---------------------------------------------------------------- misc hooks
@@ -442,7 +446,37 @@ class Externals:
             r = sp(eng, ctx, e)
             if r is not None:
                 return r
+        if isinstance(f, ast.Name) and f.id == 'next' and len(e.args) == 1 and isinstance(e.args[0], ast.Subscript) and self.counter_fields:
+            return self._next_counter(eng, ctx, e.args[0])
         return None
+
+    def _next_counter(self, eng, ctx, sub):
+        """next(<map>[k][0]) where the slot holds the itertools.count modelled by a ghost integer."""
+        for c, vals in eng.ev_many([sub.value, sub.slice], ctx):
+            if isinstance(vals, Raised):
+                yield c, vals
+                continue
+            cont, key = vals
+            if not (isinstance(cont, Ref) and (cont.obj, cont.field) in self.counter_fields and len(cont.path) == 1):
+                raise Unsupported('next() of something that is not a modelled counter slot')
+            gobj, gfield = self.counter_fields[(cont.obj, cont.field)]
+            k = eng.to_v(c, key)
+            sv = eng.load(c, cont)
+            for c2, pres in eng.branch(c, sv.present(k)):
+                if not pres:
+                    yield c2, Raised(Exc('KeyError'))
+                    continue
+                slot = sv.child(('k', k)).leaf()
+                for c3, isc in eng.branch(c2, slot == self.counter_atom):
+                    if not isc:
+                        yield c3, Raised(Exc('TypeError'))
+                        continue
+                    owner = cont.path[0][1]
+                    g = c3.st.get(gobj, gfield)
+                    cur = g.c['.'][owner]
+                    c3.st = c3.st.set(gobj, gfield, g.with_child(('k', owner), SV(Leaf('I'), {'': cur + 1})))
+                    self.note('itertools.count(n) is a counter: next() returns n, n+1, ... (modelled by a ghost integer)')
+                    yield c3, S(cur)
 
     def _call_with(self, eng, ctx, fval, e):
         exprs = [a.value if isinstance(a, ast.Starred) else a for a in e.args] + [k.value for k in e.keywords]
